@@ -163,11 +163,29 @@ PANIC_PAT = re.compile(
 
 
 def split_fns(src):
-    """yield (fn name, body text) for each top-level or impl-level fn, by brace matching"""
+    """yield (fn name, body text) for each fn with a body, by bracket matching (signatures may contain `;`, e.g. `[u8; 32]`)"""
     for m in re.finditer(r"\bfn\s+(\w+)\s*(<[^>{]*>)?\s*\(", src):
-        i = src.find("{", m.end())
-        semi = src.find(";", m.end())
-        if i < 0 or (0 <= semi < i):
+        # skip the parameter list
+        depth, j = 1, m.end()
+        while j < len(src) and depth:
+            depth += src[j] in "([" 
+            depth -= src[j] in ")]"
+            j += 1
+        # the body starts at the first `{` before any `;` at bracket depth 0
+        depth, i = 0, j
+        while i < len(src):
+            c = src[i]
+            if c in "([<" and not (c == "<" and src[i - 1] == "-"):
+                depth += 1
+            elif c in ")]>" and not (c == ">" and src[i - 1] in "-="):
+                depth = max(0, depth - 1)
+            elif c == ";" and depth == 0:
+                i = -1
+                break
+            elif c == "{":
+                break
+            i += 1
+        if i < 0 or i >= len(src):
             continue
         depth, j = 0, i
         while j < len(src):
